@@ -309,6 +309,7 @@ class Fn:
         self._dom = None
         self._pdom = None
         self._pos = None
+        self.inlined_helper = False
 
     @staticmethod
     def _noise(n):
@@ -560,6 +561,9 @@ class Fn:
             c = self.kids(nid)
             if leaf in ("operator[]", "operator*", "operator->") and c:
                 return self.field_of(c[0]) + ("[]" if leaf == "operator[]" else "")
+            if len(n.get("inl_rets", ())) == 1:
+                # a virtually inlined accessor (xv/inline.py): the object is what the helper returns
+                return self.field_of(n["inl_rets"][0])
             return "call:" + n.get("callee", "?")
         if k == "cast":
             return self.field_of(self.kids(nid)[0])
@@ -623,7 +627,18 @@ class Facts:
         t0 = time.time()
         self.data = build_facts(tier)
         self.key = self.data["key"]
-        self.fns = [Fn(r) for r in self.data["shapes"]]
+        shapes = self.data["shapes"]
+        self.inline_report = {"new_patterns": [], "expanded": []}
+        if not os.environ.get("XV_NO_INLINE"):
+            from . import inline
+            known = inline.load_known(VERIF)
+            if known is not None:
+                shapes, self.inline_report = inline.inline_new_helpers(shapes, known)
+        self.fns = [Fn(r) for r in shapes]
+        # helpers that were expanded into their callers are judged in that context; per-function scans skip their stand-alone shape
+        expanded = {x["callee"] for x in self.inline_report["expanded"]}
+        for f in self.fns:
+            f.inlined_helper = f.pat in expanded
         self.by_pat = {}
         for f in self.fns:
             self.by_pat.setdefault(f.pat, []).append(f)
